@@ -30,6 +30,9 @@ def main():
         if prop == "C08":
             import c08
             return c08.run(args)
+        if prop == "C11":
+            import c11
+            return c11.run(args)
         if prop == "C02":
             import c02
             return c02.run(args)
